@@ -1,0 +1,26 @@
+//go:build verif
+
+package openapi3gen
+
+// C15, second sentence: the type-info cache shared by concurrent schema generation is only
+// accessed with its mutex held, and getTypeInfo releases what it acquires.
+
+//@ guarded typeInfos by typeInfosMutex @C15
+
+//@ iface (reflect.Type).Kind (self)
+//@   pure
+//@ iface (reflect.Type).Elem (self)
+//@   pure
+
+//@ func appendFields
+//@   modifies *
+//@   preserves @C15 wlocked, rlocked, globals(openapi3gen)
+
+//@ func getTypeInfo
+//@   requires t != nil
+//@   requires !wlocked[ptr(typeInfosMutex)] && rlocked[ptr(typeInfosMutex)] == 0
+//@   modifies *
+//@   modifies wlocked, rlocked
+//@   ensures unchanged(wlocked, rlocked)
+//@   option safety-tags C10
+//@   tag C15
